@@ -118,6 +118,34 @@ type prepareVisit struct {
 	selectionSet *SelectionSet
 }
 
+// sameArgTypes reports whether two parsed argument values have the same Go type,
+// looking through interface-typed struct fields as well (the arguments of a
+// paginated field are a connection-arguments struct that carries the field's own
+// arguments in such a field).
+func sameArgTypes(a, b interface{}) bool {
+	va, vb := reflect.ValueOf(a), reflect.ValueOf(b)
+	if !va.IsValid() || !vb.IsValid() {
+		return va.IsValid() == vb.IsValid()
+	}
+	if va.Type() != vb.Type() {
+		return false
+	}
+	if va.Kind() == reflect.Ptr && !va.IsNil() && !vb.IsNil() {
+		va, vb = va.Elem(), vb.Elem()
+	}
+	if va.Kind() != reflect.Struct {
+		return true
+	}
+	for i := 0; i < va.NumField(); i++ {
+		if va.Field(i).Kind() == reflect.Interface && va.Type().Field(i).PkgPath == "" {
+			if !sameArgTypes(va.Field(i).Interface(), vb.Field(i).Interface()) {
+				return false
+			}
+		}
+	}
+	return true
+}
+
 // PrepareQuery checks that the given selectionSet matches the schema typ, and
 // parses the args in selectionSet
 func PrepareQuery(ctx context.Context, typ Type, selectionSet *SelectionSet) error {
@@ -216,7 +244,7 @@ func PrepareQuery(ctx context.Context, typ Type, selectionSet *SelectionSet) err
 				if err != nil {
 					return NewClientError(`error parsing args for "%s": %s`, selection.Name, err)
 				}
-				if reflect.TypeOf(parsed) != reflect.TypeOf(selection.Args) {
+				if !sameArgTypes(parsed, selection.Args) {
 					return NewClientError(`field "%s" is selected through one fragment on types whose arguments differ`, selection.Name)
 				}
 			}
